@@ -11,7 +11,7 @@ warnings.simplefilter('ignore')
 
 R = Run('association graphs over 13 classes (binary/ternary, key/non-key refs, sub-associations with restated and '
         'inherited Association qualifier) in 3 namespaces: all 2-node pair graphs (5 assoc classes x 4 end-class '
-        'pairs x 5 namespace placements x 4 shapes; quick: star design), mixed/ternary/multi-edge graphs, seeded '
+        'pairs x 5 namespace placements x 4 shapes; quick: those differing from the base graph in <= 1 factor), mixed/ternary/multi-edge graphs, seeded '
         'random graphs of 6..12 nodes and one 30-node graph, NULL ends, dangling ends, create/modify/delete '
         'sequences of a non-key association over 5 nodes; every node, every association instance and a missing '
         'object as source x all (ResultClass, Role) and all filter tuples with <= 2 of the 4 associator filters set '
@@ -750,10 +750,16 @@ PAIR_P = ('same', 'cross', 'cross-req-y', 'third', 'same-b')
 PAIR_S = ('single', 'both', 'self', 'fan')
 
 
+def pair_star(spec):
+    """Number of factors in which the pair graph differs from the base graph."""
+    a, n, p, s = spec
+    return sum((a != PAIR_A[0], n != PAIR_N[1], p != PAIR_P[0], s != PAIR_S[0]))
+
+
 def pair_specs(full):
     specs = []
     for a, n, p, s in itertools.product(PAIR_A, PAIR_N, PAIR_P, PAIR_S):
-        star = sum((a != PAIR_A[0], n != PAIR_N[1], p != PAIR_P[0], s != PAIR_S[0]))
+        star = pair_star((a, n, p, s))
         if a == 'A_BinImp' and p not in ('same', 'same-b'):
             continue        # cross-namespace use of the inherited-qualifier class: dedicated family below
         if full or star <= 1 or (star == 2 and p == 'cross' and (a == 'A_Loose' or s == 'self')):
@@ -936,7 +942,7 @@ def class_level(rnd, quick):
                 t[i], t[j] = v, x
                 tuples.append(tuple(t))
     seen = set(tuples)
-    for _ in range(30 if quick else 600):
+    for _ in range(30 if quick else 300):
         t = tuple(rnd.choice(u) for u in uni)
         if t not in seen:
             seen.add(t)
@@ -1023,20 +1029,22 @@ def main():
         if not quick and spec in core_full:
             explore(w, 'full', rnd, nsample=0, variants=4, light_sources=('root/b:N_Sub.Id=z', 'root/a:N_Sub.Id=z',
                                                                           'root/a:N_Base.Id=z', 'root/b:N_Base.Id=z'))
+        elif quick or pair_star(spec) <= 2:
+            explore(w, 'pairs', rnd, nsample=6 if quick else 10, variants=1)
         else:
-            explore(w, 'pairs', rnd, nsample=6 if quick else 20, variants=1 if quick else 2)
+            explore(w, 'singles', rnd, nsample=40, variants=1)
     for w in special_worlds():
         explore(w, 'pairs' if not quick else 'singles', rnd, nsample=60 if quick else 150, variants=2)
     for w in null_worlds() + dangling_worlds() + imp_cross_worlds():
         explore(w, 'singles' if quick else 'pairs', rnd, nsample=10 if quick else 40, variants=1)
     mutation_sequences(rnd, quick)
-    for i in range(2 if quick else 8):
+    for i in range(2 if quick else 5):
         n = rnd.randint(6, 12)
         w = random_world('random/%d' % i, rnd, n, rnd.randint(n // 2, 2 * n), NSS[:rnd.randint(1, 3)])
         explore(w, 'sparse' if quick else 'singles', rnd, nsample=6 if quick else 60, variants=1,
                 node_sources_only=quick, light_refs=True)
     w = random_world('random/30-nodes', rnd, 30, 45, NSS)
-    explore(w, 'sparse', rnd, nsample=2 if quick else 30, variants=0 if quick else 1, node_sources_only=True)
+    explore(w, 'sparse', rnd, nsample=2 if quick else 15, variants=0 if quick else 1, node_sources_only=True)
     class_level(rnd, quick)
     for vid in sorted(PENDING, key=lambda v: (v.startswith('known:'), v)):
         R.violation(vid, **PENDING[vid])
